@@ -337,7 +337,9 @@ theorem apiFree_def (w : σ) (h : Handle) (hc : COk h.cs) : Dfn (apiFree W w h) 
   unfold apiFree
   apply ite_prop Dfn
   · intro _; exact apiClose_def W w h hc
-  · intro _; exact dfn_nil _ _ _ hc
+  · intro _
+    have h1 := filtersClose_def W w h hc
+    exact ⟨h1.1, h1.2⟩
 
 theorem cOk_clientOpen (n : Nat) : COk (some (clientOpen n)) := by
   intro cs h
